@@ -4,12 +4,15 @@
    receiver in one piece - any length including 0, any MaxWebsocketFramePayloadSize > 0 (any fragmentation), both
    roles, any mask keys; with permessage-deflate under the single law "reading the decompressor to its end gives
    back the message".
+   Segmentation: feeding a list of reads gives the events, oracle consumption, error and final state of feeding their
+   concatenation in one read (ReadLimit off; both directions for a receiver without a message length limit, the
+   success direction for every limit); hence the round trip holds for every cut of the wire into reads.
    NOT a theorem (decided on every run by the differential run of the extracted model against real Conn pairs and
-   by the round-trip oracle): several messages with interleaved control frames, arbitrary segmentation of the wire
-   into Parse calls, a message length limit > 0 on the receiver; DEFLATE itself; the unrolled maskXOR. *)
+   by the round-trip oracle): several messages with interleaved control frames in one theorem statement, the round trip
+   with a message length limit > 0 on the receiver; DEFLATE itself; the unrolled maskXOR. *)
 From Coq Require Import List NArith Bool Lia.
 Import ListNotations.
-Require Import WsModel WsBasics WsFrame WsLimits WsRoundtrip WsRoundtrip2.
+Require Import WsModel WsBasics WsFrame WsLimits WsRoundtrip WsRoundtrip2 WsSeg2 WsSeg3.
 Open Scope N_scope.
 
 (* what writeFrame encodes, nextFrame's two halves (peek, body_of) decode: every payload length below 2^63,
@@ -42,6 +45,46 @@ Theorem c12_message_roundtrip_compressed cfgS stS oS cfgR stR oR mt data z dr sc
     parse_call cfgR stR (wire_of_events evs) oR = (st', mko (o_keys oR) ir (o_defl oR), [EvMsg mt data], None) /\ idle st'.
 Proof. exact (roundtrip_compressed cfgS stS oS cfgR stR oR mt data z dr script ir). Qed.
 
+(* Parse's own loop bound (cache length + 1 iterations) is never the reason it stops *)
+Theorem c12_fuel cfg st data o : snd (parse_call cfg st data o) <> Some EFuel.
+Proof. exact (parse_call_fuel cfg st data o). Qed.
+
+(* segmentation, success direction, any limits: if feeding the reads one after the other raises no error, one read
+   of their concatenation produces the same events, consumes the same oracle answers and ends in the same state *)
+Theorem c12_segmentation_success cfg segs st o st' o' evs :
+  read_limit cfg = 0 -> feed cfg st o segs = (st', o', evs, None) ->
+  parse_call cfg st (concat segs) o = (st', o', evs, None).
+Proof. exact (feed_concat cfg segs st o st' o' evs). Qed.
+
+(* segmentation, both directions (errors included), receiver without a message length limit *)
+Theorem c12_segmentation cfg segs st o st' o' evs e :
+  msg_limit cfg = 0 -> read_limit cfg = 0 -> feed cfg st o segs = (st', o', evs, e) ->
+  exists st2, parse_call cfg st (concat segs) o = (st2, o', evs, e) /\ (e = None -> st2 = st').
+Proof. intros Hl Hr. exact (feed_equiv cfg Hl Hr segs st o st' o' evs e). Qed.
+
+(* the round trip for every segmentation of the wire into reads *)
+Theorem c12_message_roundtrip_segmented cfgS stS oS cfgR stR oR mt data :
+  mt = 2 \/ (mt = 1 /\ utf8_valid data = true) ->
+  closed stS = false -> cclosed stS = false -> write_compress cfgS = false -> keys_ok oS -> len data < LIM62 ->
+  msg_limit cfgR = 0 -> read_limit cfgR = 0 -> idle stR ->
+  exists oS' evs,
+    write_message cfgS stS oS mt data = (oS', evs, None) /\
+    forall segs, concat segs = wire_of_events evs ->
+      exists st', feed cfgR stR oR segs = (st', oR, [EvMsg mt data], None) /\ idle st'.
+Proof. exact (roundtrip_plain_segmented cfgS stS oS cfgR stR oR mt data). Qed.
+
+Theorem c12_message_roundtrip_compressed_segmented cfgS stS oS cfgR stR oR mt data z dr script ir :
+  mt = 2 \/ (mt = 1 /\ utf8_valid data = true) ->
+  closed stS = false -> cclosed stS = false -> write_compress cfgS = true -> keys_ok oS ->
+  o_defl oS = Some z :: dr -> z <> [] -> len z < LIM62 ->
+  msg_limit cfgR = 0 -> read_limit cfgR = 0 -> enable_compression cfgR = true -> idle stR ->
+  o_infl oR = script :: ir -> read_all 0 [] script = ROk data ->
+  exists oS' evs,
+    write_message cfgS stS oS mt data = (oS', evs, None) /\
+    forall segs, concat segs = wire_of_events evs ->
+      exists st', feed cfgR stR oR segs = (st', mko (o_keys oR) ir (o_defl oR), [EvMsg mt data], None) /\ idle st'.
+Proof. exact (roundtrip_compressed_segmented cfgS stS oS cfgR stR oR mt data z dr script ir). Qed.
+
 (* non-vacuity *)
 Example c12_frame_example :
   wf_frame (mkf true false 1 true [1; 2; 3; 4] [72; 105]) /\
@@ -59,9 +102,23 @@ Example c12_message_example :
     (init_state, mko [] [] [], [EvMsg 1 [72; 101; 108; 108; 111]]).
 Proof. vm_compute. split; reflexivity. Qed.
 
+(* the same wire fed byte by byte *)
+Example c12_bytewise_example :
+  let cfgS := mkcfg true 0 0 false false 2 in
+  let cfgR := mkcfg false 0 0 false false 32768 in
+  let oS := mko [[1; 2; 3; 4]; [5; 6; 7; 8]; [9; 10; 11; 12]] [] [] in
+  let w := wire_of_events (snd (fst (write_message cfgS init_state oS 1 [72; 101; 108; 108; 111]))) in
+  feed cfgR init_state (mko [] [] []) (map (fun x => [x]) w) = (init_state, mko [] [] [], [EvMsg 1 [72; 101; 108; 108; 111]], None).
+Proof. vm_compute. reflexivity. Qed.
+
 Example c12_idle_init : idle init_state /\ keys_ok (mko [[1; 2; 3; 4]] [] []).
 Proof. split; [repeat split|repeat constructor]. Qed.
 
 Print Assumptions c12_frame_roundtrip.
 Print Assumptions c12_message_roundtrip.
 Print Assumptions c12_message_roundtrip_compressed.
+Print Assumptions c12_fuel.
+Print Assumptions c12_segmentation_success.
+Print Assumptions c12_segmentation.
+Print Assumptions c12_message_roundtrip_segmented.
+Print Assumptions c12_message_roundtrip_compressed_segmented.
